@@ -140,6 +140,8 @@ func bigGen(g *G, tier string) []M {
 		ops = append(ops, M{"op": "rewriteAfterEdit", "f": string(f)})
 	}
 	ops = append(ops, M{"op": "deepChain"})
+	// copies of long node lists (sizes around and off the powers of two a chunked copy would use)
+	ops = append(ops, M{"op": "copyBig"})
 	// one options value without a format shared by calls on writers of different formats, and a
 	// write to a stream that fails followed by ordinary writes
 	ops = append(ops, M{"op": "sharedCallOptions"}, M{"op": "failedWriteThenWrite"})
@@ -193,6 +195,9 @@ func ExecBig(op M) (res any) {
 	}
 	if asStr(op["op"]) == "deepChain" {
 		return deepChain()
+	}
+	if asStr(op["op"]) == "copyBig" {
+		return copyBig()
 	}
 	if asStr(op["op"]) == "failedWriteThenWrite" {
 		return failedWriteThenWrite()
@@ -672,6 +677,52 @@ func deepChain() any {
 	return M{"problems": problems}
 }
 
+// copyBig: a copy of a node list of any length shares no node, edge or nested value with its source
+func copyBig() any {
+	problems := []any{}
+	bad := func(format string, a ...any) { problems = append(problems, fmt.Sprintf(format, a...)) }
+	for _, n := range []int{1000, 4096, 4133, 5000, 9001} {
+		src := bigDoc(n-1, 8).NodeList
+		for i, nd := range src.Nodes {
+			nd.Licenses = []string{"MIT"}
+			nd.Hashes = map[int32]string{1: fmt.Sprint(i)}
+			nd.Suppliers = []*sbom.Person{{Name: "s", Contacts: []*sbom.Person{{Name: "c"}}}}
+		}
+		cp := src.Copy()
+		if len(cp.Nodes) != len(src.Nodes) || !cp.Equal(src) {
+			bad("the copy of a list of %d nodes does not equal its source", n)
+			continue
+		}
+		shared, deep := 0, 0
+		for i := range src.Nodes {
+			if cp.Nodes[i] == src.Nodes[i] {
+				shared++
+				continue
+			}
+			if len(cp.Nodes[i].Suppliers) > 0 && cp.Nodes[i].Suppliers[0] == src.Nodes[i].Suppliers[0] {
+				deep++
+			}
+		}
+		if shared > 0 || deep > 0 {
+			bad("%d of the %d nodes of the copy are the source's own node objects, %d more share a supplier with it", shared, n, deep)
+		}
+		// and as behaviour: editing every node of the copy leaves the source as it was
+		before := src.Nodes[len(src.Nodes)-1].Name
+		for _, nd := range cp.Nodes {
+			nd.Name = "edited"
+			nd.Licenses[0] = "edited"
+			nd.Hashes[1] = "edited"
+		}
+		for i, nd := range src.Nodes {
+			if nd.Name == "edited" || nd.Licenses[0] != "MIT" || nd.Hashes[1] != fmt.Sprint(i) {
+				bad("editing the copy of a list of %d nodes changed source node %d (its name was %q)", n, i, before)
+				break
+			}
+		}
+	}
+	return M{"problems": problems}
+}
+
 type refusingStream struct{ accept int }
 
 func (r *refusingStream) Write(p []byte) (int, error) {
@@ -785,7 +836,7 @@ func sniffLong(n int, shape string) any {
 func oracleBig(op M, res any, exec func(M) any) []Finding {
 	var out []Finding
 	name := asStr(op["op"])
-	if name == "filePaths" || name == "storeWrappers" || name == "sharedCallOptions" || name == "failedWriteThenWrite" || name == "rewriteAfterEdit" || name == "deepChain" {
+	if name == "filePaths" || name == "storeWrappers" || name == "sharedCallOptions" || name == "failedWriteThenWrite" || name == "rewriteAfterEdit" || name == "deepChain" || name == "copyBig" {
 		what := "file entry points (" + asStr(op["f"]) + ")"
 		switch name {
 		case "storeWrappers":
@@ -798,6 +849,8 @@ func oracleBig(op M, res any, exec func(M) any) []Finding {
 			what = "writes of an edited document (" + asStr(op["f"]) + ")"
 		case "deepChain":
 			what = "chains of nested components"
+		case "copyBig":
+			what = "copies of long node lists"
 		}
 		if s, ok := res.(string); ok {
 			if s != "unknown-op" && s != "skipped-after-hang" {
@@ -980,6 +1033,8 @@ func bigOpProps(op M) []string {
 		return []string{"C02", "C03", "C07"}
 	case "deepChain":
 		return []string{"C04", "C05"}
+	case "copyBig":
+		return []string{"C12"}
 	case "storeWrappers":
 		return []string{"C19"}
 	case "sharedCallOptions":
